@@ -116,8 +116,19 @@ class Check:
             raise AnalysisError(rule, reason)
 
     def ob(self, rule: str, construct: str, ok, msg: str = '', fi: FuncInfo | None = None,
-           node=None, witness=None) -> bool:
-        """Record one obligation (rule instance). `construct` is the stable key part."""
+           node=None, witness=None, shape: bool = False) -> bool:
+        """Record one obligation (rule instance). `construct` is the stable key part.
+        shape=True marks an obligation whose failure only says "the code does not have the form
+        this rule knows how to read" (no witness path, no failing abstract case): such a failure is
+        reported as ANALYSIS-ERROR (exit 2, the rule abstains), never as a VIOLATION."""
+        if shape and not ok:
+            if rule not in self.rules:
+                raise AnalysisError(rule, "internal: rule not registered")
+            self.rules[rule].count += 1
+            line = getattr(node, 'lineno', None) or (fi.node.lineno if fi is not None else None)
+            where = f"{fi.module.path}:{line}" if fi is not None else (node if isinstance(node, str) else '')
+            self.analysis_errors.append((rule, f"unrecognised structure at {where} ({construct}): {msg}"))
+            return False
         if rule not in self.rules:
             raise AnalysisError(rule, "internal: rule not registered")
         self.rules[rule].count += 1
